@@ -91,30 +91,23 @@ def episode1(ctx: Ctx, chk) -> None:
     good = False
     tests = tests + [t for t in g.nodes if t.kind == "test" and req_nodes and all(g.dominates(t, r) for r in req_nodes) and t not in tests]
     for t in tests:
-        te = t.ast
-        # `flag = key in marker ... if not flag:` -> look through the flag
+        # canonical form of the test: local flags, predicate helpers and `not` are looked through
+        te = cn.tree(t.ast)
         pol = True
-        tt = te
-        while isinstance(tt, ast.UnaryOp) and isinstance(tt.op, ast.Not):
+        while isinstance(te, ast.UnaryOp) and isinstance(te.op, ast.Not):
             pol = not pol
-            tt = tt.operand
-        if isinstance(tt, ast.Name):
-            la = I.local_assigns(w).get(tt.id) or []
-            if len(la) == 1 and isinstance(la[0], ast.Compare) and len(la[0].ops) == 1 and isinstance(la[0].ops[0], (ast.In, ast.NotIn)):
-                c0 = la[0]
-                op = c0.ops[0]
-                if not pol:
-                    op = ast.NotIn() if isinstance(op, ast.In) else ast.In()
-                te = ast.copy_location(ast.Compare(left=c0.left, ops=[op], comparators=c0.comparators), c0)
+            te = te.operand
+        if not pol and isinstance(te, ast.Compare) and len(te.ops) == 1 and isinstance(te.ops[0], (ast.In, ast.NotIn)):
+            te = ast.Compare(left=te.left, ops=[ast.NotIn() if isinstance(te.ops[0], ast.In) else ast.In()], comparators=te.comparators)
         if isinstance(te, ast.Compare) and len(te.ops) == 1 and isinstance(te.ops[0], (ast.NotIn, ast.In)) and sb.buffer_attr(te.comparators[0]) == "internal_messages":
-            kc = cn.canon(te.left)
+            kc = norm(te.left)
             if kc == f"(In.node_id, 255, {pv})":
                 miss = "t" if isinstance(te.ops[0], ast.NotIn) else "f"
                 other = [s for s, lab in t.succ if lab != miss and lab != "exc"]
                 if g.reach_avoiding(other, lambda x: x in req_nodes, lambda x, t=t: x is t, from_succ=False) is None:
                     good = True
             else:
-                chk.refute(rule, key, f"the outstanding-request test uses the key {kc}; the marker of this node is (In.node_id, 255, I_PRESENTATION)", ctx.loc(w, te))
+                chk.refute(rule, key, f"the outstanding-request test uses the key {kc}; the marker of this node is (In.node_id, 255, I_PRESENTATION)", ctx.loc(w, t.ast))
                 good = None
     if good:
         chk.ok(rule, key, "request sent only if (In.node_id, 255, I_PRESENTATION) not in internal_messages", ctx.loc(w, req))
